@@ -32,7 +32,8 @@ MIN = {'quick': {'distinct': 2000,
                            'transitions.inorder': 1500,
                            'transitions.gap': 1500,
                            'cli.transitions': 20},
-                 'strata': {'gap: unary root': 100, 'gap: gapdeg>=2': 100,
+                 'strata': {'second call on a changed copy': 1000,
+                            'gap: unary root': 100, 'gap: gapdeg>=2': 100,
                             'one-token sentence': 30,
                             'topdown: unary root': 100}},
        'thorough': {'distinct': 100000,
@@ -301,17 +302,57 @@ def install(R):
 
 
 def run_system(ctx, system, spec, rng, case):
+    import copy
     Cur.ctx, Cur.case = ctx, case
     live = common.live_tree(ctx, spec, rng)
     fn = getattr(ctx.R.transitions, system)
+    res = None
     try:
         with common.captured():
             with probe.step_budget(STEP_BUDGET):
-                return fn(live)
+                res = fn(live)
+            if case.get('again'):
+                # a second call in the same process on a (deep) copy of the
+                # same nodes whose shape was changed: add or remove a unary
+                # node at the top
+                live2 = copy.deepcopy(live)
+                T = ctx.R.trees
+                toks = sorted(T.unordered_terminals(live2),
+                              key=lambda t: t.data['num'])
+                if case['again'] == 'top':
+                    live2 = ctx.R.transform.add_topnode(live2)
+                elif case['again'] == 'delete' and len(toks) >= 2:
+                    # a binary node loses a child and becomes unary
+                    T.delete_terminal(live2, toks[case.get('which', 0)
+                                                  % len(toks)])
+                elif case['again'] == 'grow' and system == 'gap':
+                    # a unary node gets a second child (a new last token)
+                    stack = [live2]
+                    unary = []
+                    while stack:
+                        x = stack.pop()
+                        if len(x.children) == 1:
+                            unary.append(x)
+                        stack.extend(x.children)
+                    if unary:
+                        u = unary[case.get('which', 0) % len(unary)]
+                        t = T.Tree(T.make_node_data())
+                        t.data.update(word='neu', label='XY', edge='--',
+                                      morph='--', lemma='--',
+                                      num=len(toks) + 1, head=False)
+                        t.parent = u
+                        u.children.append(t)
+                elif len(live2.children) == 1 and live2.children[0].children:
+                    live2 = live2.children[0]
+                    live2.parent = None
+                    live2.data['head'] = False
+                with probe.step_budget(STEP_BUDGET):
+                    fn(live2)
+                ctx.stratum('second call on a changed copy')
     except BaseException as e:
         if isinstance(e, (KeyboardInterrupt, SystemExit)):
             raise
-        return None
+    return res
 
 
 def binary_tree(rng, pools, n, moves, p_unary, root_unary):
@@ -470,8 +511,10 @@ def shard(ctx):
         else:
             spec = binary_tree(rng, pools, n, 0, rng.choice([0, 0.15, 0.3]),
                                root_unary)
+        again = rng.choice([None, None, 'top', 'strip', 'delete', 'grow'])
         run_system(ctx, system, spec, rng, {'kind': 'tree', 'system': system,
-                                            'spec': spec})
+                                            'spec': spec, 'again': again,
+                                            'which': rng.randrange(50)})
         if i < 3:
             ctx.sample({'system': system,
                         'tree': model.show(model.from_spec(spec['root']), '')})
